@@ -384,6 +384,10 @@ pub struct Convs {
     pub f: String,
     #[deserr(map = probe::map_p::<9009, Option<i16>>)]
     pub g: Option<i16>,
+    #[deserr(missing_field_error = probe::missing_p::<9013>, default = 5)]
+    pub h: u8,
+    #[deserr(default, missing_field_error = probe::missing_p::<9014>, map = probe::map_p::<9015, String>)]
+    pub i: String,
 }
 }
 impl ToModel for Convs {
@@ -398,6 +402,8 @@ impl ToModel for Convs {
                 ("e".into(), self.e.to_model()),
                 ("f".into(), self.f.to_model()),
                 ("g".into(), self.g.to_model()),
+                ("h".into(), self.h.to_model()),
+                ("i".into(), self.i.to_model()),
             ],
         }
     }
@@ -422,9 +428,17 @@ impl Described for Convs {
         f.map = Some(9008);
         let mut g = fld("g", "g", <Option<i16>>::ty());
         g.map = Some(9009);
+        // a default wins over a custom missing-field function: the function is never called
+        let mut h = fld("h", "h", u8::ty());
+        h.missing_fn = Some(9013);
+        h.default = Some(M::Int(5));
+        let mut i = fld("i", "i", Ty::Str);
+        i.missing_fn = Some(9014);
+        i.default = Some(M::Str(String::new()));
+        i.map = Some(9015);
         Ty::Struct(Arc::new(StructTy {
             name: "Convs".into(),
-            fields: vec![a, b, c, d, e, f, g],
+            fields: vec![a, b, c, d, e, f, g, h, i],
             deny: Deny::Custom(9002),
             validate: Some(9001),
         }))
@@ -696,6 +710,7 @@ src_text! { BOUNDED_SRC,
 #[derive(Deserr, Debug)]
 #[deserr(where_predicate = A: Deserr<__Deserr_E>, where_predicate = __Deserr_E: deserr::MergeWithError<ProbeErr>, rename_all = camelCase)]
 pub struct Bounded<A> {
+    #[deserr(missing_field_error = probe::missing_p::<9031>)]
     pub first_item: A,
     pub other_items: Vec<A>,
     #[deserr(try_from(&String) = probe::try_ref_p::<9030, String> -> ProbeErr, default)]
@@ -721,9 +736,225 @@ impl<A: Described> Described for Bounded<A> {
         note.default = Some(M::Conv { via: 0, inner: Box::new(M::Str(String::new())) });
         Ty::Struct(Arc::new(StructTy {
             name: "Bounded".into(),
-            fields: vec![fld("first_item", "firstItem", A::ty()), fld("other_items", "otherItems", Ty::Vec(Box::new(A::ty()))), note],
+            fields: vec![
+                {
+                    let mut f = fld("first_item", "firstItem", A::ty());
+                    f.missing_fn = Some(9031);
+                    f
+                },
+                fld("other_items", "otherItems", Ty::Vec(Box::new(A::ty()))),
+                note,
+            ],
             deny: Deny::No,
             validate: None,
+        }))
+    }
+}
+
+// ---- rename_all at enum, variant and neither level, in every order (modelled) ----
+
+src_text! { MIXED_SRC,
+#[derive(Deserr, Debug)]
+#[deserr(tag = "shape_kind", rename_all = camelCase, deny_unknown_fields)]
+pub enum Mixed {
+    FirstOne { first_item: u8, Other_Name: bool },
+    #[deserr(rename_all = camelCase)]
+    SecondOne { second_item: u8 },
+    ThirdOne { third_item: u8, Third_Name: String },
+    #[deserr(rename_all = lowercase, rename = "4th")]
+    FourthOne { Fourth_Item: u8 },
+    FifthOne { fifth_item: Option<u8>, Fifth_Name: Option<bool> },
+    #[deserr(rename = "six", rename_all = camelCase)]
+    SixthOne { sixth_item: u8 },
+    UnitOne,
+}
+}
+impl ToModel for Mixed {
+    fn to_model(&self) -> M {
+        let (v, f): (&str, Vec<(String, M)>) = match self {
+            Mixed::FirstOne { first_item, Other_Name } => ("FirstOne", vec![("first_item".into(), first_item.to_model()), ("Other_Name".into(), Other_Name.to_model())]),
+            Mixed::SecondOne { second_item } => ("SecondOne", vec![("second_item".into(), second_item.to_model())]),
+            Mixed::ThirdOne { third_item, Third_Name } => ("ThirdOne", vec![("third_item".into(), third_item.to_model()), ("Third_Name".into(), Third_Name.to_model())]),
+            Mixed::FourthOne { Fourth_Item } => ("FourthOne", vec![("Fourth_Item".into(), Fourth_Item.to_model())]),
+            Mixed::FifthOne { fifth_item, Fifth_Name } => ("FifthOne", vec![("fifth_item".into(), fifth_item.to_model()), ("Fifth_Name".into(), Fifth_Name.to_model())]),
+            Mixed::SixthOne { sixth_item } => ("SixthOne", vec![("sixth_item".into(), sixth_item.to_model())]),
+            Mixed::UnitOne => ("UnitOne", vec![]),
+        };
+        M::Variant { name: "Mixed".into(), variant: v.into(), fields: f }
+    }
+}
+impl Described for Mixed {
+    fn ty() -> Ty {
+        // the enum's rename_all (camelCase) renames the variants only; each variant's fields follow the
+        // variant's own rename_all, or keep their identifiers
+        let v = |ident: &str, key: &str, fields: Vec<FieldTy>| VariantTy { ident: ident.into(), key: key.into(), fields: Some(fields) };
+        Ty::TaggedEnum(Arc::new(EnumTy {
+            name: "Mixed".into(),
+            tag: "shape_kind".into(),
+            variants: vec![
+                v("FirstOne", "firstOne", vec![fld("first_item", "first_item", u8::ty()), fld("Other_Name", "Other_Name", Ty::Bool)]),
+                v("SecondOne", "secondOne", vec![fld("second_item", "secondItem", u8::ty())]),
+                v("ThirdOne", "thirdOne", vec![fld("third_item", "third_item", u8::ty()), fld("Third_Name", "Third_Name", Ty::Str)]),
+                v("FourthOne", "4th", vec![fld("Fourth_Item", "fourth_item", u8::ty())]),
+                v("FifthOne", "fifthOne", vec![fld("fifth_item", "fifth_item", <Option<u8>>::ty()), fld("Fifth_Name", "Fifth_Name", <Option<bool>>::ty())]),
+                v("SixthOne", "six", vec![fld("sixth_item", "sixthItem", u8::ty())]),
+                VariantTy { ident: "UnitOne".into(), key: "unitOne".into(), fields: None },
+            ],
+            deny: Deny::Default,
+            validate: None,
+        }))
+    }
+}
+
+// ---- more than 20 fields with a skipped one declared early (declaration order of the accepted list) ----
+
+src_text! { WIDE_SRC,
+#[derive(Deserr, Debug)]
+#[deserr(deny_unknown_fields)]
+pub struct Wide {
+    pub f01: u8,
+    pub f02: u8,
+    pub f03: u8,
+    #[deserr(skip)]
+    pub f04: u8,
+    pub f05: u8,
+    pub f06: u8,
+    pub f07: u8,
+    pub f08: u8,
+    pub f09: u8,
+    #[deserr(default)]
+    pub f10: u8,
+    pub f11: u8,
+    pub f12: u8,
+    pub f13: u8,
+    pub f14: u8,
+    pub f15: u8,
+    pub f16: u8,
+    pub f17: u8,
+    #[deserr(default)]
+    pub f18: u8,
+    pub f19: u8,
+    pub f20: u8,
+    pub f21: u8,
+    pub f22: u8,
+    pub f23: u8,
+}
+}
+impl ToModel for Wide {
+    fn to_model(&self) -> M {
+        M::Struct { name: "Wide".into(), fields: vec![("f01".into(), self.f01.to_model()), ("f02".into(), self.f02.to_model()), ("f03".into(), self.f03.to_model()), ("f04".into(), self.f04.to_model()), ("f05".into(), self.f05.to_model()), ("f06".into(), self.f06.to_model()), ("f07".into(), self.f07.to_model()), ("f08".into(), self.f08.to_model()), ("f09".into(), self.f09.to_model()), ("f10".into(), self.f10.to_model()), ("f11".into(), self.f11.to_model()), ("f12".into(), self.f12.to_model()), ("f13".into(), self.f13.to_model()), ("f14".into(), self.f14.to_model()), ("f15".into(), self.f15.to_model()), ("f16".into(), self.f16.to_model()), ("f17".into(), self.f17.to_model()), ("f18".into(), self.f18.to_model()), ("f19".into(), self.f19.to_model()), ("f20".into(), self.f20.to_model()), ("f21".into(), self.f21.to_model()), ("f22".into(), self.f22.to_model()), ("f23".into(), self.f23.to_model())] }
+    }
+}
+impl Described for Wide {
+    fn ty() -> Ty {
+        Ty::Struct(Arc::new(StructTy {
+            name: "Wide".into(),
+            fields: vec![
+                fld("f01", "f01", u8::ty()),
+                fld("f02", "f02", u8::ty()),
+                fld("f03", "f03", u8::ty()),
+                { let mut x = fld("f04", "f04", u8::ty()); x.skip = true; x.default = Some(M::Int(0)); x },
+                fld("f05", "f05", u8::ty()),
+                fld("f06", "f06", u8::ty()),
+                fld("f07", "f07", u8::ty()),
+                fld("f08", "f08", u8::ty()),
+                fld("f09", "f09", u8::ty()),
+                { let mut x = fld("f10", "f10", u8::ty()); x.default = Some(M::Int(0)); x },
+                fld("f11", "f11", u8::ty()),
+                fld("f12", "f12", u8::ty()),
+                fld("f13", "f13", u8::ty()),
+                fld("f14", "f14", u8::ty()),
+                fld("f15", "f15", u8::ty()),
+                fld("f16", "f16", u8::ty()),
+                fld("f17", "f17", u8::ty()),
+                { let mut x = fld("f18", "f18", u8::ty()); x.default = Some(M::Int(0)); x },
+                fld("f19", "f19", u8::ty()),
+                fld("f20", "f20", u8::ty()),
+                fld("f21", "f21", u8::ty()),
+                fld("f22", "f22", u8::ty()),
+                fld("f23", "f23", u8::ty()),
+            ],
+            deny: Deny::Default,
+            validate: None,
+        }))
+    }
+}
+
+// ---- validate on enums (unit and struct-like variants, zero-field variants, only-skipped variants) ----
+
+src_text! { JUDGED_SRC,
+#[derive(Deserr, Debug)]
+#[deserr(tag = "t", deny_unknown_fields, validate = probe::validate_p::<9040, Self> -> ProbeErr,
+         where_predicate = __Deserr_E: deserr::MergeWithError<ProbeErr>)]
+pub enum Judged {
+    Plain,
+    Data { v: u8, w: Option<String> },
+    Empty {},
+    #[deserr(rename = "hidden")]
+    OnlySkipped {
+        #[deserr(skip)]
+        cache: u32,
+    },
+}
+}
+impl ToModel for Judged {
+    fn to_model(&self) -> M {
+        let (v, f): (&str, Vec<(String, M)>) = match self {
+            Judged::Plain => ("Plain", vec![]),
+            Judged::Data { v, w } => ("Data", vec![("v".into(), v.to_model()), ("w".into(), w.to_model())]),
+            Judged::Empty {} => ("Empty", vec![]),
+            Judged::OnlySkipped { cache } => ("OnlySkipped", vec![("cache".into(), cache.to_model())]),
+        };
+        M::Variant { name: "Judged".into(), variant: v.into(), fields: f }
+    }
+}
+impl Described for Judged {
+    fn ty() -> Ty {
+        let mut cache = fld("cache", "cache", u32::ty());
+        cache.skip = true;
+        cache.default = Some(M::Int(0));
+        Ty::TaggedEnum(Arc::new(EnumTy {
+            name: "Judged".into(),
+            tag: "t".into(),
+            variants: vec![
+                VariantTy { ident: "Plain".into(), key: "Plain".into(), fields: None },
+                VariantTy { ident: "Data".into(), key: "Data".into(), fields: Some(vec![fld("v", "v", u8::ty()), fld("w", "w", <Option<String>>::ty())]) },
+                VariantTy { ident: "Empty".into(), key: "Empty".into(), fields: Some(vec![]) },
+                VariantTy { ident: "OnlySkipped".into(), key: "hidden".into(), fields: Some(vec![cache]) },
+            ],
+            deny: Deny::Default,
+            validate: Some(9040),
+        }))
+    }
+}
+
+src_text! { LEVEL_SRC,
+#[derive(Deserr, Debug)]
+#[deserr(rename_all = lowercase, validate = probe::validate_p::<9041, Self> -> ProbeErr,
+         where_predicate = __Deserr_E: deserr::MergeWithError<ProbeErr>)]
+pub enum Level {
+    Low,
+    #[deserr(rename = "bad")]
+    MidWay,
+    High,
+}
+}
+impl ToModel for Level {
+    fn to_model(&self) -> M {
+        let v = match self {
+            Level::Low => "Low",
+            Level::MidWay => "MidWay",
+            Level::High => "High",
+        };
+        M::Variant { name: "Level".into(), variant: v.into(), fields: vec![] }
+    }
+}
+impl Described for Level {
+    fn ty() -> Ty {
+        Ty::UnitEnum(Arc::new(UnitEnumTy {
+            name: "Level".into(),
+            variants: vec![("Low".into(), "low".into()), ("MidWay".into(), "bad".into()), ("High".into(), "high".into())],
+            validate: Some(9041),
         }))
     }
 }
@@ -749,6 +980,13 @@ pub fn hand_entries() -> Vec<(Entry, bool)> {
         (Entry::generic::<Option<Camel>>("Option<Camel>", "", "hand"), true),
         (Entry::generic::<(Strict, Vec<Camel>)>("(Strict, Vec<Camel>)", "", "hand"), true),
         (Entry::generic::<Vec<Search>>("Vec<Search>", "", "hand"), false),
+        (Entry::generic::<Mixed>("Mixed", MIXED_SRC, "hand"), true),
+        (Entry::generic::<Wide>("Wide", WIDE_SRC, "hand"), true),
+        (Entry::generic::<Judged>("Judged", JUDGED_SRC, "hand"), true),
+        (Entry::generic::<Vec<Judged>>("Vec<Judged>", JUDGED_SRC, "hand"), true),
+        (Entry::generic::<Level>("Level", LEVEL_SRC, "hand"), true),
+        (Entry::generic::<BTreeMap<String, Level>>("BTreeMap<String, Level>", LEVEL_SRC, "hand"), true),
+        (Entry::generic::<Vec<Mixed>>("Vec<Mixed>", MIXED_SRC, "hand"), true),
         (Entry::generic::<Pair<u8>>("Pair<u8>", PAIR_SRC, "hand"), true),
         (Entry::generic::<Pair<Point>>("Pair<Point>", PAIR_SRC, "hand"), true),
         (Entry::generic::<Vec<Pair<String>>>("Vec<Pair<String>>", PAIR_SRC, "hand"), true),
